@@ -101,7 +101,7 @@ def tlc_mc(module, cfg, tag, workers=8, timeout=1800, xmx="8g", expect_violation
                depth=int(dm.group(1)) if dm else 0, ok=ok, out=out, wall=time.time() - t0)
     # per-action coverage: "<Action line ..>: distinct:generated"
     cov = {}
-    for am in re.finditer(r"^<(\w+) line \d+, col \d+ to line \d+, col \d+ of module (\w+)>: (\d+):(\d+)", out, re.M):
+    for am in re.finditer(r"^<(\w+) line \d+, col \d+ to line \d+, col \d+ of module (\w+)(?: \([\d ]+\))?>: (\d+):(\d+)", out, re.M):
         cov[am.group(1)] = cov.get(am.group(1), 0) + int(am.group(4))
     res["coverage"] = cov
     if not ok and not expect_violation:
